@@ -70,6 +70,17 @@ def gen(tier, seed):
         V = [a] * (q + 1) + sum(([k] * rnd.randint(1, q + 1) for k in ks), []) + [b] * (q + 1)
         cases.append({"U": fsl(U), "p": p, "V": fsl(V), "q": q, "kind": "intervals-" + mode,
                       "shared": len(set(U) & set(V))})
+    # long parameter intervals (1e4 .. 1e6) with two knots 1/200 apart: distinct in absolute terms, whatever the length
+    for i in range(12 if tier == "quick" else 150):
+        p, q = rnd.randint(0, 3), rnd.randint(0, 3)
+        L = F(rnd.choice((10 ** 4, 10 ** 5, 10 ** 6)))
+        x = L * F(rnd.randint(1, 7), 8)
+        y = x + F(1, rnd.choice((200, 1000)))
+        ku = sorted(rnd.sample([x, y, L / 16, L * F(15, 16)], rnd.randint(1, 3)))
+        kv_ = sorted(rnd.sample([x, y, L / 16, L * F(15, 16)], rnd.randint(1, 3)))
+        U = [F(0)] * (p + 1) + sum(([k] * rnd.randint(1, p + 1) for k in ku), []) + [L] * (p + 1)
+        V = [F(0)] * (q + 1) + sum(([k] * rnd.randint(1, q + 1) for k in kv_), []) + [L] * (q + 1)
+        cases.append({"U": fsl(U), "p": p, "V": fsl(V), "q": q, "kind": "long-interval", "shared": len(set(ku) & set(kv_))})
     return cases
 
 
